@@ -137,6 +137,8 @@ class Repo:
                 for rel, modname, is_pkg, src, tree in parsed:
                     self.inline_log.extend(localnames.reorient(tree, modname, shp))
                     self.inline_log.extend(localnames.contract(tree, modname, shp))
+                if "@attrs" in shp:
+                    self.inline_log.extend(localnames.recover_attrs([(m, t) for _, m, _, _, t in parsed], shp["@attrs"]))
             kg = inline.load_known_globals()
             if kg:
                 trees = [t for _, _, _, _, t in parsed]
